@@ -14,6 +14,47 @@ fn guarded<T>(f: impl FnOnce() -> T + std::panic::UnwindSafe) -> Result<T, Strin
     r
 }
 
+/// the iterator seen through the standard adaptors (skip, nth, step_by, count, last): the same items as by next()
+fn adaptors<T: PartialEq + std::fmt::Debug + Clone + 'static>(what: &str, want: &[T], make: &dyn Fn() -> Box<dyn Iterator<Item = T>>) -> String {
+    for n in 0..4usize {
+        let got: Vec<T> = make().skip(n).collect();
+        let exp: Vec<T> = want.iter().skip(n).cloned().collect();
+        if got != exp { return format!("{}: skip({}) gives {:?}.., next() gives {:?}..", what, n, &got[..got.len().min(4)], &exp[..exp.len().min(4)]); }
+        let got = make().nth(n);
+        if got.as_ref() != want.get(n) { return format!("{}: nth({}) gives {:?}, expected {:?}", what, n, got, want.get(n)); }
+    }
+    let got: Vec<T> = make().step_by(2).collect();
+    let exp: Vec<T> = want.iter().step_by(2).cloned().collect();
+    if got != exp { return format!("{}: step_by(2) gives {:?}.., expected {:?}..", what, &got[..got.len().min(4)], &exp[..exp.len().min(4)]); }
+    if make().count() != want.len() { return format!("{}: count() gives {}, expected {}", what, make().count(), want.len()); }
+    if make().last().as_ref() != want.last() { return format!("{}: last() differs", what); }
+    let mut it = make();
+    let (lo, hi) = it.size_hint();
+    if lo > want.len() || hi.map(|h| h < want.len()).unwrap_or(false) { return format!("{}: size_hint() = ({}, {:?}) excludes the real length {}", what, lo, hi, want.len()); }
+    let _ = it.next();
+    String::new()
+}
+
+pub fn adaptors_kmer(s: &[u8], k: usize) -> Option<Vec<(String, String)>> {
+    let want: Vec<(u64, u64)> = kmers_spec(s, k).into_iter().map(|(_, f, r)| (f, r)).collect();
+    let s2: &'static [u8] = Box::leak(s.to_vec().into_boxed_slice());
+    let w2 = want.clone();
+    let r = guarded(move || adaptors("KmerGenerator", &w2, &|| Box::new(KmerGenerator::new(s2, k))));
+    let why = match r { Ok(w) => w, Err(e) => format!("panic: {}", e) };
+    if why.is_empty() { None } else { Some(vec![("seq".into(), show(s)), ("k".into(), k.to_string()), ("via".into(), "adaptors".into()), ("why".into(), why)]) }
+}
+pub fn adaptors_min(kmin: bool, s: &[u8], w: usize, m: usize) -> Option<Vec<(String, String)>> {
+    let want = runs_spec(s, w, m);
+    let s2: &'static [u8] = Box::leak(s.to_vec().into_boxed_slice());
+    let w2 = want.clone();
+    let r = guarded(move || {
+        if kmin { adaptors("KmerMinimiserGenerator", &w2, &|| Box::new(kmer::kmer_minimisers::KmerMinimiserGenerator::new(s2, w, m).map(|x| (x.0, x.1, x.2)))) }
+        else { adaptors("MinimiserGenerator", &w2, &|| Box::new(kmer::minimiser::MinimiserGenerator::new(s2, w, m))) }
+    });
+    let why = match r { Ok(x) => x, Err(e) => format!("panic: {}", e) };
+    if why.is_empty() { None } else { Some(vec![("seq".into(), show(s)), ("w".into(), w.to_string()), ("m".into(), m.to_string()), ("via".into(), "adaptors".into()), ("why".into(), why)]) }
+}
+
 fn c01_one(s: &[u8], k: usize) -> Option<Vec<(String, String)>> {
     let want: Vec<(u64, u64)> = kmers_spec(s, k).into_iter().map(|(_, f, r)| (f, r)).collect();
     let s2 = s.to_vec();
@@ -45,7 +86,18 @@ pub fn c01(o: &Opts) -> Outcome {
     if let Some(inp) = &o.input {
         let s = unshow(&inp["seq"]);
         let k: usize = inp["k"].parse().unwrap();
+        if inp.contains_key("via") { return Outcome { cases: 1, witness: adaptors_kmer(&s, k) }; }
         return Outcome { cases: 1, witness: c01_one(&s, k) };
+    }
+    {
+        let mut rng = Rng(o.seed.wrapping_mul(0x2545F4914F6CDD1D) | 1);
+        for _ in 0..400 {
+            let k = 1 + rng.below(6) as usize;
+            let l = rng.below(40) as usize;
+            let s = random_seq(&mut rng, l, 80);
+            cases += 1;
+            if let Some(w) = adaptors_kmer(&s, k) { return Outcome { cases, witness: Some(w) }; }
+        }
     }
     // exhaustive small: alphabet of bases (both cases, U) and ambiguous bytes
     let alpha = b"ACGTNu";
